@@ -29,14 +29,17 @@ ASSUMPTIONS = ['a constant all-ones source is not a legal random stream (stdlib 
 REAL = ['smartquery.functions (_rand, _shuffle)', 'stdlib random algorithms (randint, choice, shuffle, random)', 'evaluator']
 STUB = ['entropy source (scripted bits)']
 REACH_PROBES = ('extreme_prefix_consumed', 'rand01', 'rand_ab_literal', 'rand_ab_host_int', 'rand_ab_big', 'rand_ab_equal',
-                'rand_list', 'shuffle', 'shuffle_short_list', 'endpoint_coverage_checked', 'illegal_args', 'standin_then_builtin', 'trailing_zero_bounds')
+                'rand_list', 'shuffle', 'shuffle_short_list', 'endpoint_coverage_checked', 'illegal_args', 'standin_then_builtin', 'trailing_zero_bounds', 'names_omitted', 'very_wide_range')
 SIM_TIME = 'logical: entropy draws; no clock in this property'
 
 BIG = [10 ** 30, 123456789012345678901234567890123, 10 ** 18, 2 ** 64, 99999999999999999999999999999]
 
 
 def _bounds(r):
-    k = weighted(r, [('small', 5), ('equal', 1.5), ('neg', 2), ('big', 2), ('wide', 1.5), ('bool', 0.5)])
+    k = weighted(r, [('small', 5), ('equal', 1.5), ('neg', 2), ('big', 2), ('wide', 1.5), ('bool', 0.5), ('verywide', 1.5)])
+    if k == 'verywide':
+        a = r.choice([0, 1, -5, -(10 ** 40)])
+        return a, a + r.choice([2 ** 63 - 1, 2 ** 63, 10 ** 20, 2 ** 64, 2 * 10 ** 40]), k
     if k == 'small':
         a = r.randint(0, 20)
         return a, a + r.randint(1, 5), k
@@ -65,7 +68,7 @@ def generate(seed, tier):
     names = {'L': [[1], [2], [3, [4]], {'m': [['k', 5]]}, []][:rc.randint(1, 5)], 'E': [], 'ONE': [[9]], 'S': [1, 'a', None, True, {'d': '2.5'}]}
     ops = []
     for _ in range(rc.randint(3, 10)):
-        kind = weighted(ro, [('rand01', 2), ('rand_ab', 6), ('rand_list', 3), ('shuffle', 4), ('illegal', 1)])
+        kind = weighted(ro, [('rand01', 2), ('rand_ab', 6), ('rand_list', 3), ('shuffle', 4), ('illegal', 1), ('no_names', 1.2)])
         op = {'op': 'draws', 'kind': kind, 'n': ro.choice([50, 100, 200, 500])}
         if kind == 'rand_ab':
             a, b, bk = _bounds(ro)
@@ -84,6 +87,10 @@ def generate(seed, tier):
             op['list'] = ro.choice(['L', 'S', 'ONE', 'E', 'lit'])
         elif kind == 'illegal':
             op['what'] = ro.choice(['a_gt_b', 'fraction', 'empty_list', 'three_args', 'string'])
+        elif kind == 'no_names':
+            # evaluations given no names mapping at all: what one of them binds must not be there for the next
+            op['bind'] = ro.choice(['rand = (a, b) => 99', 'shuffle = 5', 'rand = 0.5', 'x = 1', 'shuffle = v => v'])
+            op['n'] = 50
         pre = []
         if rf.random() < 0.45:
             pre = [rf.choice(['zero', 'one', 'alt']) for _ in range(rf.randint(1, 8))]
@@ -112,6 +119,25 @@ def execute(case, ctx):
         names['R'] = list(range(n))
         ENTROPY.script(op['entropy']['seed'], op['entropy']['prefix'])
         kind = op['kind']
+        if kind == 'no_names':
+            try:
+                parser.eval(op['bind'])
+            except Exception:
+                pass
+            ENTROPY.script(op['entropy']['seed'], op['entropy']['prefix'])
+            ctx.probe('names_omitted')
+            what = 'step %d: eval(%r) and then eval("[...] | map(v => rand(1, 6))"), both without a names mapping' % (step, op['bind'])
+            for src2, lo, hi in (('[1,2,3,4,5,6,7,8] | map(v => rand(1, 6))', 1, 6), ('shuffle([1, 2, 3]) | sorted', None, None)):
+                try:
+                    v = parser.eval(src2, max_ops_evaluated=1000)
+                except Exception as e:
+                    ctx.report('rand_raised', '%s: %s raised %s: %s' % (what, src2, type(e).__name__, canon.norm_msg(str(e))[:160]), {'kind': 'rand_raised', 'call': 'no_names'})
+                    continue
+                if lo is not None and not all(isinstance(x, Decimal) and lo <= x <= hi and x == int(x) for x in v):
+                    ctx.report('rand_out_of_range', '%s returned %r' % (what, v), {'kind': 'rand_out_of_range', 'call': 'no_names'})
+                if lo is None and v != [1, 2, 3]:
+                    ctx.report('shuffle_not_a_permutation', '%s: sorted(shuffle([1, 2, 3])) = %r' % (what, v), {'kind': 'shuffle_not_a_permutation'})
+            continue
         if kind == 'rand01':
             src = 'map(R, v => rand())'
         elif kind == 'rand_ab':
@@ -175,6 +201,8 @@ def execute(case, ctx):
             ctx.probe({'literal': 'rand_ab_literal', 'host_int': 'rand_ab_host_int'}.get(op['form'], 'rand_ab_host_int'))
             if op['bk'] == 'big':
                 ctx.probe('rand_ab_big')
+            if op['bk'] == 'verywide':
+                ctx.probe('very_wide_range')
             if a == b:
                 ctx.probe('rand_ab_equal')
             if op['form'] in ('literal_dot0', 'host_dec_dot00'):
